@@ -225,6 +225,25 @@ def rule_scaling(ctx, repo):
                         adv_after = True
             if not adv_after:
                 issues.append("swap target `%s` is not advanced after use (two swaps can pick the same position)" % b)
+            # target free: on every path into the swap the last event on b is the false edge of `b in zstate_idx`
+            # (a while loop skipping occupied slots); an `if` that advances once leaves the fact unestablished
+            free = False
+            for iff in ifs:
+                last = None
+                for st in iff.body:
+                    if Q.match("$cols[%s] = %s" % (i, b), st):
+                        break
+                    if any((isinstance(n, (ast.AugAssign,)) and dotted(n.target) == b) or
+                           (isinstance(n, ast.Assign) and any(dotted(t) == b for t in n.targets)) for n in ast.walk(st)):
+                        last = st
+                else:
+                    continue
+                if isinstance(last, ast.While) and not last.orelse and Q.match("%s in self.zstate_idx" % b, last.test) \
+                        and not any(isinstance(n, (ast.Break, ast.Return)) for n in ast.walk(last)):
+                    free = True
+            if not free:
+                issues.append("swap target `%s` is not established free of zero-time-constant states at the swap "
+                              "(needs `while %s in self.zstate_idx: %s += 1` as the last write before it)" % (b, b, b))
             # permutation symmetric: both (i,b) and (b,i) entries
             sym = Q.has("$c[%s] = %s" % (i, b), l) and Q.has("$c[%s] = %s" % (b, i), l, {"c": m["cols"]})
             if not sym:
